@@ -2704,6 +2704,19 @@ class Session(_SessionClassMethods, EventTarget):
         """
 
         all_states = self.identity_map.all_states() + list(self._new)
+        if self._transaction is not None:
+            # objects DELETEd in the current transaction are in neither
+            # collection but are still attached ("deleted" state)
+            seen = set(all_states)
+            for trans in self._transaction._iterate_self_and_parents():
+                for state in list(trans._deleted):
+                    if (
+                        state not in seen
+                        and state._deleted
+                        and state.session_id == self.hash_key
+                    ):
+                        seen.add(state)
+                        all_states.append(state)
         self.identity_map._kill()
         self.identity_map = identity._WeakInstanceDict()
         self._new = {}
